@@ -7,6 +7,9 @@ import simlib
 from simlib import Infra, Rng, subseed
 
 VERIF = simlib.VERIF
+# where evidence and replay files go; tools that run the checks against a deliberately broken tree point
+# this somewhere else so that /verif/evidence only ever describes runs against /repo as it is
+OUT = os.environ.get("VERIF_OUT", VERIF)
 NCPU = int(os.environ.get("VERIF_JOBS", "16"))
 
 
@@ -132,7 +135,7 @@ def run_check(pid, modname, fn, bindir, n_cases, tier, level, rule, assumptions,
     # verdicts
     code = 0
     reported = 0
-    os.makedirs(os.path.join(VERIF, "replays", pid), exist_ok=True)
+    os.makedirs(os.path.join(OUT, "replays", pid), exist_ok=True)
     seen_cls = set()
     for (w, v) in violations:
         if v.cls in seen_cls:
@@ -141,7 +144,7 @@ def run_check(pid, modname, fn, bindir, n_cases, tier, level, rule, assumptions,
         rp = {"property": pid, "seed": seed, "case_seed": w[3], "index": w[4], "tier": tier,
               "violation": {"class": v.cls, "detail": v.detail}}
         rp.update(v.replay or {})
-        path = os.path.join(VERIF, "replays", pid, "%d-%d.json" % (seed, w[4]))
+        path = os.path.join(OUT, "replays", pid, "%d-%d.json" % (seed, w[4]))
         with open(path, "w") as f:
             json.dump(rp, f, indent=1)
         print("violation class=%s detail=%s" % (v.cls, v.detail[:2000]))
@@ -171,8 +174,8 @@ def run_check(pid, modname, fn, bindir, n_cases, tier, level, rule, assumptions,
         cov[k] = v
     ev = {"property_id": pid, "tier": tier, "seed": seed, "level": level, "coverage": cov,
           "assumptions": assumptions, "wall_s": round(wall, 2), "violations": reported}
-    os.makedirs(os.path.join(VERIF, "evidence"), exist_ok=True)
-    with open(os.path.join(VERIF, "evidence", pid + ".json"), "w") as f:
+    os.makedirs(os.path.join(OUT, "evidence"), exist_ok=True)
+    with open(os.path.join(OUT, "evidence", pid + ".json"), "w") as f:
         json.dump(ev, f, indent=1, sort_keys=True)
     print("check %s: cases=%d evaluations=%d distinct_nontrivial=%d violations=%d infra=%d wall=%.1fs exit=%d" % (
         pid, done, total.evals, len(sigs), reported, len(infra), wall, code), flush=True)
